@@ -535,6 +535,17 @@ def run(prog: Program, col: Collector, tier: str, refs: Optional[Refs] = None):
                                 col.check(d.lineno < w.lineno and not any(w in list(f.module.ancestors(d)) for _ in [0]),
                                           f"{f.fq}::{norm(d)}", "enclosing interpretation is read before the new context is entered",
                                           "the enclosing interpretation is read after entering", f.loc(d))
+    # ---------------------------------------------------------------- R17.12 (engine shared with C16 R16.1)
+    col.rule("R17.12", "falling through to the enclosing interpretation is decided afresh after a registration: the dispatch memo is invalidated by add()", floor=1)
+    from . import c16 as _c16
+    from .common import require_func as _rf
+    _pc = _rf(prog, "funsor.registry::PartialDispatcher.partial_call")
+    _subs = [n for n in walk_no_nested(_pc.node) if isinstance(n, ast.Subscript) and isinstance(n.value, ast.Attribute) and isinstance(n.value.value, ast.Name)
+             and n.value.value.id == _pc.positional[0]]
+    _c16._memo_invalidated(prog, col, _pc, sorted({n.value.attr for n in _subs}))
+    # ---------------------------------------------------------------- R17.13 wrappers report the totality of what they wrap
+    col.rule("R17.13", "an interpretation that wraps a base interpretation is total exactly when its base is", floor=2)
+    _wrappers_report_totality(prog, col, refs)
     return col
 
 
@@ -1163,3 +1174,36 @@ def _context_kind(prog: Program, mod: Module, expr: ast.AST, refs: Refs, interp_
                     if k == "interpretation":
                         return k
     return "unknown"
+
+
+def _wrappers_report_totality(prog: Program, col: Collector, refs: Refs):
+    """Interpretation.__enter__ pushes a total interpretation alone and layers a partial one over everything that is active
+    (PrioritizedInterpretation flattens the layers and refuses more than a fixed number of them).  A wrapper such as Memoize or
+    SubstituteInterpretation always answers - through its base - so it must report `is_total` of the base: the inherited default
+    False makes every use add a layer (substitute() is entered for every substitution), and a legal nest of a few partial
+    interpretations then fails on entry."""
+    base = "funsor.interpretations.Interpretation"
+    n = 0
+    for c in prog.classes.values():
+        if c.fq == base or not prog.is_subclass(c.fq, base):
+            continue
+        init = c.methods.get("__init__")
+        interp = c.methods.get("interpret")
+        if init is None or interp is None:
+            continue
+        selfn = init.positional[0]
+        stores = [t for st in walk_no_nested(init.node) if isinstance(st, ast.Assign) for t in st.targets
+                  if isinstance(t, ast.Attribute) and isinstance(t.value, ast.Name) and t.value.id == selfn and t.attr == "base_interpretation"]
+        if not stores:
+            continue
+        n += 1
+        m = c.methods.get("is_total")
+        ok = False
+        if m is not None:
+            rets = [r for r in walk_no_nested(m.node) if isinstance(r, ast.Return) and r.value is not None]
+            ok = bool(rets) and all(norm(r.value) == f"{m.positional[0]}.base_interpretation.is_total" for r in rets)
+        col.check(ok, f"{c.fq}::is_total", "is_total returns self.base_interpretation.is_total",
+                  f"{c.name} wraps `base_interpretation` and answers every term through it, but does not report the base's totality (is_total "
+                  f"{'is inherited: False' if m is None else 'returns something else'}): entering it layers it over the whole active stack instead of replacing it, so each use deepens the "
+                  "flattened stack and a legal nest of partial interpretations overflows the layer limit on entry", (m or interp).loc())
+    col.cur.analysed["wrapper_interpretations"] = n
